@@ -472,6 +472,8 @@ fn inputs(target: &str, large: bool) -> Vec<String> {
         "text_roundtrip_gt" | "cdata_roundtrip" => {
             // bracket / '>' runs first (the ]]> guard and the CDATA splitter), then the general alphabet
             let mut v = strings(&[']', '>', 'x'], if large { 7 } else { 6 });
+            // the same runs behind / around a two-byte and a four-byte character (code that mixes up character and byte positions)
+            v.extend(strings(&[']', '>', '\u{e9}', '\u{1f600}'], if large { 6 } else { 5 }));
             v.extend(strings(CRIT, if large { 4 } else { 3 }));
             v
         }
